@@ -35,6 +35,7 @@ import (
 	"os"
 	"reflect"
 	"runtime"
+	"strconv"
 	"strings"
 	"sync"
 	"syscall"
@@ -538,6 +539,8 @@ type hsServer struct {
 	mute    bool   // the script is over: frames are still logged, nothing is answered any more
 	addr    string // set by hsReserve
 	fd      int    // hsReserve: the bound socket that does not listen yet (-1 once it does)
+	// how this server's frames reach the client's socket (hsWriteFrame): "" = one write per frame
+	delivery string
 }
 
 func hsListen() *hsServer {
@@ -706,7 +709,93 @@ func (s *hsServer) sendPlain(c net.Conn, body []byte) {
 	var f hsW
 	f.u32(uint32(len(w.b)))
 	f.raw(w.b)
-	c.Write(f.b)
+	hsWriteFrame(c, f.b, s.delivery)
+}
+
+// hsDelivery: in how many pieces, and at what pace, a transport frame (4-byte length + packet) is handed to the
+// connection. TCP is a byte stream: a conformant server, a small MSS, a loaded sender or a proxy on the path may
+// deliver one frame in any number of segments.
+//
+//	"" / whole   one write
+//	half         the two halves
+//	cut<k>       the first k bytes, a pause, the rest (k >= the frame's length: all but the last byte first)
+//	tail<k>      all but the last k bytes, a pause, the rest
+//	each<k>      pieces of k bytes, a pause between them
+//
+// optionally `@<ms>`, the pause in milliseconds (default 8; each<k>: 1).
+func hsDelivery(spec string) (kind string, k int, pause time.Duration, ok bool) {
+	ms := -1
+	if i := strings.IndexByte(spec, '@'); i >= 0 {
+		v, err := strconv.Atoi(spec[i+1:])
+		if err != nil || v < 0 || v > 200 || strconv.Itoa(v) != spec[i+1:] {
+			return "", 0, 0, false
+		}
+		ms, spec = v, spec[:i]
+	}
+	switch {
+	case spec == "" || spec == "whole" || spec == "half":
+		kind = spec
+	case strings.HasPrefix(spec, "cut"), strings.HasPrefix(spec, "tail"), strings.HasPrefix(spec, "each"):
+		kind = strings.TrimRight(spec, "0123456789")
+		v, err := strconv.Atoi(spec[len(kind):])
+		if err != nil || v < 1 || v > 100000 || strconv.Itoa(v) != spec[len(kind):] || (kind != "cut" && kind != "tail" && kind != "each") {
+			return "", 0, 0, false
+		}
+		k = v
+	default:
+		return "", 0, 0, false
+	}
+	if ms < 0 {
+		ms = 8
+		if kind == "each" {
+			ms = 1
+		}
+	}
+	return kind, k, time.Duration(ms) * time.Millisecond, true
+}
+
+func hsDeliveryOk(spec string) bool {
+	_, _, _, ok := hsDelivery(spec)
+	return ok && spec != ""
+}
+
+// hsWriteFrame: the frame, handed to the connection the way `spec` says.
+func hsWriteFrame(c net.Conn, frame []byte, spec string) {
+	kind, k, pause, ok := hsDelivery(spec)
+	n := len(frame)
+	if !ok || kind == "" || kind == "whole" || n < 2 {
+		c.Write(frame)
+		return
+	}
+	var cuts []int // the offsets at which a new piece starts
+	switch kind {
+	case "half":
+		cuts = []int{n / 2}
+	case "cut":
+		if k >= n {
+			k = n - 1
+		}
+		cuts = []int{k}
+	case "tail":
+		if k >= n {
+			k = n - 1
+		}
+		cuts = []int{n - k}
+	case "each":
+		for o := k; o < n; o += k {
+			cuts = append(cuts, o)
+		}
+	}
+	from := 0
+	for _, to := range append(cuts, n) {
+		if from > 0 {
+			time.Sleep(pause)
+		}
+		if _, err := c.Write(frame[from:to]); err != nil {
+			return
+		}
+		from = to
+	}
 }
 
 func (s *hsServer) serve(c net.Conn, res *hsSrvResult, sec *hsSecrets, replies [][]byte, seen chan struct{}) {
@@ -1181,6 +1270,12 @@ type hsPlan struct {
 	Pre, Post []string
 	After     string
 	First     []string // the requests the application issues after a completed exchange, in order (hsRequest; default: ping)
+	// the environment of the run. Delivery: how the server's frames reach the client's socket (hsDelivery; "" = one
+	// write per frame). SessionFile: when set, the client is configured with Config.AuthKeyFile = that path (the
+	// library's own file storage) instead of the recording storage; hsRun.Stores then stays empty - the caller reads
+	// the file.
+	Delivery    string
+	SessionFile string
 }
 
 var (
@@ -1404,9 +1499,14 @@ func hsExchangePlan(p *hsPlan) *hsRun {
 		srv = hsListen()
 	}
 	run := &hsRun{Addr: srv.Addr()}
+	srv.delivery = p.Delivery
 	run.Srv = srv.arm(secrets, replies)
 	store := &hsStore{Mode: p.StoreMode}
-	m, err := mtproto.NewMTProto(mtproto.Config{SessionStorage: store, ServerHost: srv.Addr(), PublicKey: p.Pub})
+	cfg := mtproto.Config{SessionStorage: store, ServerHost: srv.Addr(), PublicKey: p.Pub}
+	if p.SessionFile != "" {
+		cfg = mtproto.Config{AuthKeyFile: p.SessionFile, ServerHost: srv.Addr(), PublicKey: p.Pub}
+	}
+	m, err := mtproto.NewMTProto(cfg)
 	if err != nil {
 		// no client: nothing was sent, nothing can have been stored
 		run.Outcome = "err:new"
